@@ -977,6 +977,9 @@ class TestResult(unittest.TestResult):
             self._threads = threadsupport.enumerate()
             if not hasattr(self, "_start_time"):
                 self._start_time = time.time()
+            # ``stopTest`` will call ``testTearDown``: keep the per-test
+            # layer hooks balanced.
+            self.testSetUp()
         else:
             self._restoreStdStreams()
         unittest.TestResult.addSkip(self, test, reason)
